@@ -28,3 +28,20 @@ def encodePuls (ps : List (Nat × Nat)) : List Nat :=
 def ValidPulse (cd : Nat × Nat) : Prop := 1 ≤ cd.1 ∧ cd.1 < 0x8000 ∧ cd.2 < 0x80000000
 
 end PzxSpec
+
+namespace PzxSpec
+
+def dwordBytes (n : Nat) : List Nat := [n % 256, n / 256 % 256, n / 65536 % 256, n / 16777216 % 256]
+
+/-- The body of a `DATA` block as the PZX document lays it out: bit count with the initial
+level in bit 31, tail pulse, the two sequence lengths, the two pulse sequences, the bytes. -/
+def encodeData (level nbits tail : Nat) (s0 s1 data : List Nat) : List Nat :=
+  dwordBytes (level * 0x80000000 + nbits) ++ wordBytes tail ++ [s0.length, s1.length] ++
+    s0.flatMap wordBytes ++ s1.flatMap wordBytes ++ data
+
+/-- A `DATA` block the format can represent; the byte count is the bit count rounded up. -/
+def ValidData (level nbits tail : Nat) (s0 s1 data : List Nat) : Prop :=
+  level < 2 ∧ nbits < 0x80000000 ∧ tail < 65536 ∧ s0.length < 256 ∧ s1.length < 256 ∧
+  (∀ x ∈ s0, x < 65536) ∧ (∀ x ∈ s1, x < 65536) ∧ data.length = (nbits + 7) / 8
+
+end PzxSpec
